@@ -282,7 +282,16 @@ class Concretiser:
     def element(self, tag, attrs, children_text, allow_selfclose=True):
         if children_text == "" and allow_selfclose and (self.plain or self.rnd.random() < 0.6):
             return self.tag_open(tag, attrs, True)
+        if children_text == "" and self.chance(0.4):
+            # nothing but template white space between the tags: no child (the text node is dropped)
+            children_text = self.rnd.choice([" ", "\n", "\n  ", "\t", " \n"])
         return self.tag_open(tag, attrs, False) + children_text + "</" + tag + self.ch([">", ">", " >"])
+
+    def childless(self, tag, attrs):
+        """an element that takes no children (import, external wxs): self-closing, or paired with nothing or white space between"""
+        if self.plain or self.rnd.random() < 0.5:
+            return "<%s %s/>" % (tag, " ".join(attrs))
+        return "<%s %s>%s</%s>" % (tag, " ".join(attrs), self.rnd.choice(["", " ", "\n", "\n  ", "\t"]), tag)
 
     # ---- nodes
     def nodes(self, ns):
@@ -428,12 +437,12 @@ class Concretiser:
     def file(self, f, fn_table):
         out = []
         for p in f.get("importSrcs", f.get("imports", [])):
-            out.append('<import src="%s"/>' % p)
+            out.append(self.childless("import", ['src="%s"' % p]))
         for w in f.get("wxs", []):
             if w.get("late"):
                 continue          # set through the group API after parsing (semrun.case_post_ops)
             if "src" in w:
-                out.append('<wxs module="%s" src="%s"/>' % (w["n"], w["src"]))
+                out.append(self.childless("wxs", ['module="%s"' % w["n"], 'src="%s"' % w["src"]]))
             else:
                 body = wxs_source(w["members"], fn_table)
                 out.append('<wxs module="%s">%s</wxs>' % (w["n"], body))
